@@ -50,6 +50,11 @@ def gen(rng):
         # (long names: '<name>.trashinfo' exceeds NAME_MAX, so the kernel itself answers ENAMETOOLONG until the name is cut enough)
         p = wd + '/' + rng.choice(['foo', 'foo', 'bar baz', 'bar baz', 'ü', 'ü', 'é' * 125, '日' * 84, 'x' * 250, 'é' * 5 + 'r' * 240]) + str(i)
         G.make_entry(rng, p, rng.choice(['file', 'dir', 'dir', 'deepdir', 'link_file', 'link_dangling', 'empty']), steps, aux)
+        if rng.random() < 0.2:
+            # owned by ids without passwd / group entry (whatever describes the entry in a diagnostic must cope)
+            steps.append(['own', p, rng.choice([54321, 0]), rng.choice([54321, 54322])])
+            if rng.random() < 0.5:
+                steps.append(['own', wd, 54321, 54321])
         args.append(p)
     if rng.random() < 0.4:
         for a in args:
